@@ -98,6 +98,26 @@ def autophase_oracle(tier, seed):
                     fails.append({"key": "C13:autophase-reference-slice", "clause": "C13:autophase-reference-slice",
                                   "ops": [{"shape": shape, "dim_pos": k, "ref": ref_idx}]})
                     break
+    # strongly mis-phased short spectra: the minimiser may end with a first-order angle beyond +-360 degrees; whatever it
+    # records must reproduce its own output when replayed through phase()
+    xs = np.linspace(-16.0, 15.0, 32)
+    for p1 in ([200.0, 310.0, 330.0, 350.0, -320.0, -345.0] if tier == "quick" else list(np.arange(180.0, 360.0, 10.0)) + list(-np.arange(180.0, 360.0, 10.0))):
+        for centre in (-5.0, 4.0):
+            for p0 in (40.0, -110.0):
+                spec = 1.0 / (1.0 + 1j * (xs - centre) / 1.5)
+                ramp = np.exp(1j * np.deg2rad(p0 + p1 * np.arange(32) / 32.0))
+                d = dnp.DNPData(spec * ramp, ["f2"], [xs.copy()])
+                with warnings.catch_warnings():
+                    warnings.simplefilter("ignore")
+                    r = dnp.autophase(d, dim="f2")
+                n_eval += 1
+                t = r.proc_attrs[-1][1].get("phasetuples", [])
+                if len(t) != 1:
+                    fails.append({"key": "C13:autophase-tuples-missing", "clause": "C13:autophase-tuples-missing", "ops": [{"p1": p1}]}); continue
+                rep = dnp.phase(d, "f2", float(t[0][0]), float(t[0][1]))
+                if not np.allclose(rep.values, r.values, rtol=1e-7, atol=1e-9):
+                    fails.append({"key": "C13:autophase-replay", "clause": "C13:autophase-replay",
+                                  "ops": [{"p0": p0, "p1": p1, "centre": centre, "recorded": [float(t[0][0]), float(t[0][1])]}]})
     return fails, n_eval
 
 
